@@ -32,9 +32,16 @@ models have independent derivatives + unused intermediates, a sixth intermediate
 f != 0; distinct by sha1(text, back end, delta, point, dt, state)."""
 
 
+# rates whose own-state derivative is a product / quotient with an exponential factor: "never exactly zero" on paper, 0 or below any delta
+# in floating point far enough out - the guard (or its omission) is what is being looked at
+DECAY_PROBES = ["3 - 2*exp(-x)", "a/exp(x)", "2*(1 - x)/exp((y + 4)**2/2)", "a*exp(-x**2) + y", "b - exp(-a*x)*x", "1/(1 + exp(x))"]
+
+
 def cases(tier, seed, focus):
     n = 220 if tier == "quick" else 2500
     forms = list(mg.OWN_FORMS)
+    for e in DECAY_PROBES:
+        yield {"ode": f"parameters(a=2.0, b=0.5)\nstates(x=1.5, y=0.2)\ndx_dt = {e}\ndy_dt = b - y\n", "npts": 2, "backends": ["numpy", "c"], "deltas": [1e-8, 1e-3], "probe": True, "tags": ["C06"]}
     for i in range(n):
         k = seed * 100003 + i
         bes = ["numpy"] + (["c"] if i % 2 == 0 else []) + (["jax"] if i % 8 == 3 else [])
@@ -44,8 +51,15 @@ def cases(tier, seed, focus):
 
 def special_points(ref, pts, deltas, rng):
     out = list(pts)
-    if not pts or not ref.params:
+    if not pts:
         return out
+    # far-away states: exp(-x) underflows to 0 at x = 800 and is below every delta at x = 36 - a linearisation that "can never be zero"
+    # symbolically is zero or tiny there (inputs at which the reference itself overflows are skipped by the caller)
+    for big in (800.0, 36.0, -36.0):
+        for name in ref.states:
+            q = dict(pts[0], states=dict(pts[0]["states"]))
+            q["states"][name] = big
+            out.append(q)
     for d in deltas:
         for mult in (0.0, 1.0, -1.0, 1 + 1e-3, 1 - 1e-3, -(1 + 1e-3)):
             p = dict(pts[0], params=dict(pts[0]["params"]))
@@ -65,7 +79,7 @@ def check(case):
         return res
     text = c["ode"]
     shr = not case.get("_noshrink")
-    explicit = "mseed" not in case
+    explicit = "mseed" not in case and not case.get("probe")  # a stored failure is replayed at its own inputs; generated models and probes also get the special points
     res["sample"] = {"ode": text, "deltas": c.get("deltas", DELTAS), "points": c["points"][:1]}
     try:
         ode = cm.load(text)
